@@ -1,7 +1,8 @@
 (** C16 and deepdiff.extract: search.py prints its paths itself ("'%s'" % key, always
     single quotes); for keys without a single quote (and within the guard of the C09
     round trip) that text is the one path.py prints, hence [extract] resolves every
-    reported matched_values path to the reported value. *)
+    reported matched_values path to the reported value.  The Path block's universe has no
+    objects with attributes: the statements are about plain values ([inj v]). *)
 From Coq Require Import List ZArith NArith Bool Arith String Lia.
 Import ListNotations.
 From DD Require Import Base.Sx Base.PyStr Base.Value.
@@ -9,24 +10,24 @@ From DD Require Path.PathModel Path.PathProofs.
 From DD Require Import Search.SearchModel Search.SearchSpec Search.SearchProofs.
 
 Definition to_pkey (s : step) : pkey :=
-  match s with SKey k => PKey k | SIdx i => PIdx i end.
+  match s with SKey k => PKey k | SIdx i => PIdx i | SAttr n => PKey (AStr n) end.
 
 (* the search printer and the path.py printer agree on this step, and the C09 round trip
    covers it *)
 Definition tame_step (s : step) : bool :=
   match s with
   | SKey (AStr k) => negb (has_char PathModel.cSQ k)
-  | SKey (ABytes _) => false
+  | SKey (ABytes _) | SAttr _ => false
   | _ => true
   end && PathModel.key_ok (to_pkey s).
 Definition tame_path (p : path) : bool := forallb tame_step p.
 
 (* no set / frozenset is subscripted on the way to obj@p (extract cannot index a set) *)
-Fixpoint set_free_along (obj : value) (p : path) : bool :=
+Fixpoint set_free_along (obj : xvalue) (p : path) : bool :=
   match p with
   | [] => true
   | s :: r =>
-      match obj with VSet _ | VFrozen _ => false | _ => true end
+      match obj with XSet _ | XFrozen _ => false | _ => true end
       && match child obj s with Some ch => set_free_along ch r | None => true end
   end.
 
@@ -43,7 +44,7 @@ Lemma render_step_tame : forall brepr s, tame_step s = true ->
   render_step brepr s = PathModel.render_key (to_pkey s).
 Proof.
   intros brepr s H. unfold tame_step in H. apply andb_true_iff in H. destruct H as [H _].
-  destruct s as [k|i].
+  destruct s as [k|i|n]; [| |discriminate].
   - destruct k as [|b|z|t|k|k]; try discriminate; cbn [render_step to_pkey].
     + reflexivity.
     + destruct b; reflexivity.
@@ -101,83 +102,123 @@ Proof.
   cbn [orb]. rewrite Nat2Z.id. exact H.
 Qed.
 
+Lemma xwf_inj : forall v, xwf (inj v) = wf v.
+Proof.
+  fix IH 1. intro v. destruct v as [a|xs|xs|kvs|xs|xs]; cbn [inj xwf wf]; try reflexivity.
+  - induction xs as [|x r IHr]; cbn; [reflexivity|]. rewrite IH, IHr. reflexivity.
+  - induction xs as [|x r IHr]; cbn; [reflexivity|]. rewrite IH, IHr. reflexivity.
+  - rewrite map_map. cbn [fst]. f_equal.
+    induction kvs as [|kv r IHr]; cbn; [reflexivity|]. rewrite IH, IHr. reflexivity.
+Qed.
+
+Lemma nth_error_map_some : forall (A B : Type) (f : A -> B) l i y,
+  nth_error (map f l) i = Some y -> exists x, nth_error l i = Some x /\ y = f x.
+Proof.
+  intros A B f l. induction l as [|x r IH]; intros i y H; destruct i; cbn in H; try discriminate.
+  - inversion H. exists x. auto.
+  - apply IH in H. exact H.
+Qed.
+
+Lemma find_inj_some : forall (kvs : list (atom * value)) k kv,
+  find (fun kv => atom_eqb (fst kv) k) (map (fun kv => (fst kv, inj (snd kv))) kvs) = Some kv ->
+  exists v, In (fst kv, v) kvs /\ snd kv = inj v /\ fst kv = k.
+Proof.
+  induction kvs as [|[k0 v0] r IH]; intros k kv H; cbn [map find fst snd] in H; [discriminate|].
+  destruct (atom_eqb k0 k) eqn:E.
+  - inversion H; subst. cbn [fst snd]. exists v0. repeat split; auto using atom_eqb_eq. left. reflexivity.
+  - destruct (IH k kv H) as [v [H1 [H2 H3]]]. exists v. repeat split; auto. right. exact H1.
+Qed.
+
 Lemma get_item_child : forall obj s ch, wf obj = true ->
-  match obj with VSet _ | VFrozen _ => false | _ => true end = true ->
-  child obj s = Some ch -> PathModel.get_item obj (PathModel.key_atom (to_pkey s)) = Some ch.
+  match inj obj with XSet _ | XFrozen _ => false | _ => true end = true ->
+  child (inj obj) s = Some ch ->
+  exists ch', ch = inj ch' /\ wf ch' = true
+              /\ PathModel.get_item obj (PathModel.key_atom (to_pkey s)) = Some ch'.
 Proof.
   intros obj s ch Hwf Hns Hc.
-  destruct obj as [a|xs|xs|kvs|xs|xs], s as [k|i]; cbn [child] in Hc; try discriminate.
-  - cbn. apply seq_index_nat. exact Hc.
-  - cbn. apply seq_index_nat. exact Hc.
-  - destruct (find _ kvs) as [kv|] eqn:Hf; [|discriminate]. apply find_key_some in Hf.
-    destruct Hf as [Hin Hk]. cbn in Hc. inversion Hc; subst. cbn [to_pkey PathModel.key_atom PathModel.get_item].
-    apply assoc_in; [apply (proj1 (wf_dict_inv kvs Hwf))|]. destruct kv; exact Hin.
+  destruct obj as [a|xs|xs|kvs|xs|xs], s as [k|i|n]; cbn [inj child] in Hc; try discriminate.
+  - apply nth_error_map_some in Hc. destruct Hc as [x [Hn Hx]]. exists x. split; auto. split.
+    + cbn in Hwf. rewrite forallb_forall in Hwf. eauto using nth_error_In.
+    + cbn. apply seq_index_nat. exact Hn.
+  - apply nth_error_map_some in Hc. destruct Hc as [x [Hn Hx]]. exists x. split; auto. split.
+    + cbn in Hwf. rewrite forallb_forall in Hwf. eauto using nth_error_In.
+    + cbn. apply seq_index_nat. exact Hn.
+  - destruct (find _ _) as [kv|] eqn:Hf; [|discriminate]. apply find_inj_some in Hf.
+    destruct Hf as [v [Hin [Hv Hk]]]. cbn in Hc. inversion Hc; subst. exists v. split; auto.
+    cbn in Hwf. apply andb_true_iff in Hwf. destruct Hwf as [Hnd Hwfc]. split.
+    + rewrite forallb_forall in Hwfc. apply (Hwfc _ Hin).
+    + cbn [to_pkey PathModel.key_atom PathModel.get_item]. apply assoc_in; auto.
 Qed.
 
-Theorem resolve_get_at : forall q obj v, wf obj = true -> set_free_along obj q = true ->
-  get_at obj q = Some v -> PathModel.resolve obj (map to_pkey q) = Some v.
+Theorem resolve_get_at : forall q obj w, wf obj = true -> set_free_along (inj obj) q = true ->
+  get_at (inj obj) q = Some w ->
+  exists v, w = inj v /\ PathModel.resolve obj (map to_pkey q) = Some v.
 Proof.
-  induction q as [|s r IH]; intros obj v Hwf Hsf Hg; cbn [get_at] in Hg.
-  - exact Hg.
+  induction q as [|s r IH]; intros obj w Hwf Hsf Hg; cbn [get_at] in Hg.
+  - inversion Hg. exists obj. auto.
   - cbn [set_free_along] in Hsf. apply andb_true_iff in Hsf. destruct Hsf as [Hns Hsf].
-    destruct (child obj s) as [ch|] eqn:Hc; [|discriminate].
-    cbn [map PathModel.resolve]. rewrite (get_item_child obj s ch Hwf Hns Hc).
-    apply IH; auto. eapply child_wf; eauto.
+    destruct (child (inj obj) s) as [ch|] eqn:Hc; [|discriminate].
+    destruct (get_item_child obj s ch Hwf Hns Hc) as [ch' [Hch [Hwf' Hgi]]]. subst ch.
+    cbn [map PathModel.resolve]. rewrite Hgi. apply IH; auto.
 Qed.
 
-(* every reported matched_values path, when tame and not through a set, is resolved by
-   deepdiff.extract to the reported value, which matches the item *)
+(* every reported matched_values path of a plain value, when tame and not through a set, is resolved
+   by deepdiff.extract to the reported value, which matches the item *)
 Theorem sound_extract_partial :
-  forall (brepr : pystr -> pystr) (re_search excl_re : pystr -> bool) (re_text : pystr)
+  forall (slower brepr : pystr -> pystr) (re_search excl_re : pystr -> bool) (re_text : pystr)
          (sa ba : list pystr) (c : config) (item : value) (obj : value) (cs : bool)
          (it : eitem) (evs : list event),
     wf obj = true ->
-    prepare brepr c item = PItem cs it ->
-    deep_search brepr re_search excl_re re_text sa ba c item obj = ROk evs ->
-    forall (q : path) (v : value),
-      In (EvValue q v) evs -> tame_path q = true -> set_free_along obj q = true ->
-      PathModel.extract obj (render brepr q) = Some v /\ item_match brepr re_search c cs it v = true.
+    prepare slower brepr c item = PItem cs it ->
+    deep_search slower brepr re_search excl_re re_text sa ba c item (inj obj) = ROk evs ->
+    forall (q : path) (w : xvalue),
+      In (EvValue q w) evs -> tame_path q = true -> set_free_along (inj obj) q = true ->
+      exists v : value, w = inj v /\ PathModel.extract obj (render brepr q) = Some v
+                        /\ item_match slower brepr re_search c cs it w = true.
 Proof.
-  intros brepr re_search excl_re re_text sa ba c item obj cs it evs Hwf Hp Hr q v Hin Ht Hs.
-  destruct (final_sound _ _ _ _ _ _ _ _ _ _ _ _ Hwf Hp Hr q v Hin) as [Hg Hm]. split; auto.
+  intros slower brepr re_search excl_re re_text sa ba c item obj cs it evs Hwf Hp Hr q w Hin Ht Hs.
+  assert (Hxwf : xwf (inj obj) = true) by (rewrite xwf_inj; exact Hwf).
+  destruct (final_sound _ _ _ _ _ _ _ _ _ _ _ _ _ Hxwf Hp Hr q w Hin) as [Hg Hm].
+  destruct (resolve_get_at q obj w Hwf Hs Hg) as [v [Hw Hres]]. exists v. split; auto. split; auto.
   rewrite (render_tame brepr q Ht).
-  rewrite (PathProofs.extract_render obj (map to_pkey q) (tame_path_ok q Ht)).
-  apply resolve_get_at; auto.
+  rewrite (PathProofs.extract_render obj (map to_pkey q) (tame_path_ok q Ht)). exact Hres.
 Qed.
 
 (* the same for matched_paths entries *)
 Theorem paths_extract_partial :
-  forall (brepr : pystr -> pystr) (re_search excl_re : pystr -> bool) (re_text : pystr)
+  forall (slower brepr : pystr -> pystr) (re_search excl_re : pystr -> bool) (re_text : pystr)
          (sa ba : list pystr) (c : config) (item : value) (obj : value) (cs : bool)
          (it : eitem) (evs : list event),
     wf obj = true ->
-    prepare brepr c item = PItem cs it ->
-    deep_search brepr re_search excl_re re_text sa ba c item obj = ROk evs ->
-    forall (q : path) (v : value),
-      In (EvPath q v) evs -> tame_path q = true -> set_free_along obj q = true ->
-      PathModel.extract obj (render brepr q) = Some v.
+    prepare slower brepr c item = PItem cs it ->
+    deep_search slower brepr re_search excl_re re_text sa ba c item (inj obj) = ROk evs ->
+    forall (q : path) (w : xvalue),
+      In (EvPath q w) evs -> tame_path q = true -> set_free_along (inj obj) q = true ->
+      exists v : value, w = inj v /\ PathModel.extract obj (render brepr q) = Some v.
 Proof.
-  intros brepr re_search excl_re re_text sa ba c item obj cs it evs Hwf Hp Hr q v Hin Ht Hs.
-  apply (final_paths_exact _ _ _ _ _ _ _ _ _ _ _ _ Hwf Hp Hr) in Hin.
+  intros slower brepr re_search excl_re re_text sa ba c item obj cs it evs Hwf Hp Hr q w Hin Ht Hs.
+  assert (Hxwf : xwf (inj obj) = true) by (rewrite xwf_inj; exact Hwf).
+  apply (final_paths_exact _ _ _ _ _ _ _ _ _ _ _ _ _ Hxwf Hp Hr) in Hin.
   unfold paths_spec in Hin. destruct (item_excl c it); [destruct Hin|]. apply filter_In in Hin.
-  destruct Hin as [Hl _]. apply in_locations_root in Hl; auto.
+  destruct Hin as [Hl _]. apply in_locations_root in Hl; auto. cbn [fst snd] in Hl.
+  destruct (resolve_get_at q obj w Hwf Hs Hl) as [v [Hw Hres]]. exists v. split; auto.
   rewrite (render_tame brepr q Ht).
-  rewrite (PathProofs.extract_render obj (map to_pkey q) (tame_path_ok q Ht)).
-  apply resolve_get_at; auto.
+  rewrite (PathProofs.extract_render obj (map to_pkey q) (tame_path_ok q Ht)). exact Hres.
 Qed.
 
 (* K16g: DeepSearch({"a'b": 'x'}, 'x') reports root['a'b'], which extract cannot resolve *)
 Local Open Scope string_scope.
-Definition k16g_obj := VDict [(AStr (s2p "a'b"), VAtom (AStr (s2p "x")))].
+Definition k16g_val := VDict [(AStr (s2p "a'b"), VAtom (AStr (s2p "x")))].
+Definition k16g_obj := inj k16g_val.
 Definition k16g_item := VAtom (AStr (s2p "x")).
 Theorem sound_extract_refuted :
   exists evs q v,
-    wf k16g_obj = true /\
-    deep_search id_repr no_re no_re [] [] [] k16f_cfg k16g_item k16g_obj = ROk evs /\
+    wf k16g_val = true /\
+    deep_search lower id_repr no_re no_re [] [] [] k16f_cfg k16g_item k16g_obj = ROk evs /\
     In (EvValue q v) evs /\ set_free_along k16g_obj q = true /\
-    PathModel.extract k16g_obj (render id_repr q) = None.
+    PathModel.extract k16g_val (render id_repr q) = None.
 Proof.
-  eexists. exists [SKey (AStr (s2p "a'b"))], (VAtom (AStr (s2p "x"))).
+  eexists. exists [SKey (AStr (s2p "a'b"))], (XAtom (AStr (s2p "x"))).
   split; [reflexivity|]. split; [vm_compute; reflexivity|]. split; [left; reflexivity|].
   split; vm_compute; reflexivity.
 Qed.
